@@ -87,6 +87,8 @@ func runC22(c *Ctx) error {
 			factOf[facts[i].Hash().String()] = i + 1
 		}
 		var toks, outs []string
+		var pending []opinfo
+		storedIDs := map[int]bool{}
 		nsteps := 3 + c.Intn(14)
 		handedOut := map[int]bool{} // ops removed as filtered out / replaced duplicates
 		for st := 0; st < nsteps; st++ {
@@ -96,6 +98,10 @@ func runC22(c *Ctx) error {
 				var oi opinfo
 				if len(ops) > 0 && c.Chance(1, 6) { // resubmit an existing operation
 					oi = ops[c.Intn(len(ops))]
+				} else if len(pending) > 0 && c.Chance(1, 2) {
+					// an operation that was signed a while ago arrives only now (after others signed later)
+					oi = pending[0]
+					pending = pending[1:]
 				} else {
 					op, err := isaac.NewDummyOperation(facts[fi], privs[c.Intn(len(privs))], networkID)
 					if err != nil {
@@ -104,11 +110,24 @@ func runC22(c *Ctx) error {
 					oi = opinfo{op: op, id: len(ops) + 1, fact: fi + 1}
 					ops = append(ops, oi)
 					idOf[op.Hash().String()] = oi.id
+					if c.Chance(1, 5) {
+						// signed now, delivered later: another operation (often of the same fact) is signed and added first
+						pending = append(pending, oi)
+						time.Sleep(2 * time.Millisecond)
+						op2, err := isaac.NewDummyOperation(facts[fi], privs[c.Intn(len(privs))], networkID)
+						if err != nil {
+							return err
+						}
+						oi = opinfo{op: op2, id: len(ops) + 1, fact: fi + 1}
+						ops = append(ops, oi)
+						idOf[op2.Hash().String()] = oi.id
+					}
 				}
 				ok, err := pool.SetOperation(ctx, oi.op)
 				if err != nil {
 					return err
 				}
+				storedIDs[oi.id] = true
 				toks = append(toks, fmt.Sprintf("s:%d:%d", oi.id, oi.fact))
 				outs = append(outs, b01(ok))
 			default: // OperationHashes
@@ -119,16 +138,24 @@ func runC22(c *Ctx) error {
 					r = c.Intn(m)
 				}
 				var filter func(isaac.PoolOperationRecordMeta) (bool, error)
+				byOp := m > 0 && c.Chance(1, 3) // a filter that decides per operation (as the proposal maker's known-operation check does), not per fact
 				if m > 0 {
 					filter = func(meta isaac.PoolOperationRecordMeta) (bool, error) {
+						if byOp {
+							return idOf[meta.Operation().String()]%m != r, nil
+						}
 						return factOf[meta.Fact().String()]%m != r, nil
 					}
+				}
+				htok := fmt.Sprintf("h:%d:%d:%d", limit, m, r)
+				if byOp {
+					htok += ":o"
 				}
 				var res [][2]util.Hash
 				var herr error
 				if p := c29safe(func() { res, herr = pool.OperationHashes(ctx, base.Height(33), limit, filter) }); p != "" {
-					c.Violation("C22:panic", "OperationHashes panicked: "+p, map[string]interface{}{"history": append(toks, fmt.Sprintf("h:%d:%d:%d", limit, m, r))})
-					toks = append(toks, fmt.Sprintf("h:%d:%d:%d", limit, m, r))
+					c.Violation("C22:panic", "OperationHashes panicked: "+p, map[string]interface{}{"history": append(toks, htok)})
+					toks = append(toks, htok)
 					outs = append(outs, "panic")
 					st = nsteps
 					continue
@@ -139,7 +166,7 @@ func runC22(c *Ctx) error {
 				var ids []string
 				seenF := map[int]bool{}
 				seenO := map[int]bool{}
-				hist := append(append([]string{}, toks...), fmt.Sprintf("h:%d:%d:%d", limit, m, r))
+				hist := append(append([]string{}, toks...), htok)
 				for _, e := range res {
 					id := idOf[e[0].String()]
 					f := factOf[e[1].String()]
@@ -152,7 +179,7 @@ func runC22(c *Ctx) error {
 						c.Violation("C22:duplicate-operation", fmt.Sprintf("history %s returns operation %d twice", strings.Join(hist, " "), id), in)
 					}
 					seenF[f], seenO[id] = true, true
-					if m > 0 && f%m == r {
+					if m > 0 && ((!byOp && f%m == r) || (byOp && id%m == r)) {
 						c.Violation("C22:filtered-returned", fmt.Sprintf("history %s returns filtered-out operation %d", strings.Join(hist, " "), id), in)
 					}
 					if handedOut[id] {
@@ -170,9 +197,9 @@ func runC22(c *Ctx) error {
 				// bookkeeping for "removed not returned again": filtered-out ops seen by this call are gone.
 				// (which ones were scanned depends on the limit; the model says exactly which — the
 				// oracle here only tracks the certain ones: filtered-out ops when the result is short)
-				if m > 0 && uint64(len(res)) < limit {
+				if m > 0 && !byOp && uint64(len(res)) < limit {
 					for _, oi := range ops {
-						if oi.fact%m == r {
+						if storedIDs[oi.id] && oi.fact%m == r {
 							handedOut[oi.id] = true
 						}
 					}
